@@ -162,6 +162,9 @@ fn library(repo: &str) -> Vec<Ent> {
   lib.push(ent("usbkbd", "0003", "Keychron K2 Keyboard", "usb-0000:00:14.0-4/input0", "/devices/pci0000:00/0000:00:14.0/usb1/1-4/1-4:1.0/0003:05AC:024F.0005/input/input13", "sysrq kbd event13 leds", "120013", Some(KBD_USB), &["B: LED=1f"]));
   lib.push(ent("usbkbd", "0003", "ZSA Technology Labs Moonlander Mark I", "usb-0000:00:14.0-5/input0", "/devices/pci0000:00/0000:00:14.0/usb1/1-5/1-5:1.0/0003:3297:1969.0006/input/input14", "sysrq kbd event14 leds", "120013", Some(KBD_USB), &["B: LED=1f"]));
   lib.push(ent("mouse", "0003", "Logitech G502 HERO Gaming Mouse", "usb-0000:00:14.0-6/input0", "/devices/pci0000:00/0000:00:14.0/usb1/1-6/1-6:1.0/0003:046D:C08B.0007/input/input15", "mouse0 event15", "17", Some(MOUSE_BTN), &["B: REL=1943", "B: MSC=10"]));
+  // names with a comma (an option parser that splits values at ',' breaks --exclude for these)
+  lib.push(ent("usbkbd", "0003", "Apple, Inc Apple Keyboard", "usb-0000:00:14.0-7/input0", "/devices/pci0000:00/0000:00:14.0/usb1/1-7/1-7:1.0/0003:05AC:0221.000D/input/input50", "sysrq kbd event50 leds", "120013", Some(KBD_USB), &["B: MSC=10", "B: LED=1f"]));
+  lib.push(ent("usbkbd", "0003", "Chicony Electronics Co., Ltd. USB Keyboard", "usb-0000:00:14.0-8/input0", "/devices/pci0000:00/0000:00:14.0/usb1/1-8/1-8:1.0/0003:04F2:0111.000E/input/input51", "sysrq kbd event51 leds", "120013", Some(KBD_USB), &["B: MSC=10", "B: LED=7"]));
   lib.push(ent("mousekbd", "0003", "Logitech G502 HERO Gaming Mouse Keyboard", "usb-0000:00:14.0-6/input1", "/devices/pci0000:00/0000:00:14.0/usb1/1-6/1-6:1.1/0003:046D:C08B.0008/input/input16", "sysrq kbd event16 leds", "120013", Some(KBD_USB), &["B: MSC=10", "B: LED=1f"]));
   lib.push(ent("mousekbd", "0003", "Razer Razer DeathAdder Elite", "usb-0000:00:14.0-7/input1", "/devices/pci0000:00/0000:00:14.0/usb1/1-7/1-7:1.1/0003:1532:005C.0009/input/input17", "sysrq kbd event17", "100013", Some(MOUSE_KBD), &["B: MSC=10"]));
   lib.push(ent("mousekbd", "0003", "SteelSeries Rival 600 Mouse", "usb-0000:00:14.0-8/input2", "/devices/pci0000:00/0000:00:14.0/usb1/1-8/1-8:1.2/0003:1038:1724.000A/input/input18", "sysrq kbd mouse1 event18 leds", "120017", Some(MOUSE_KBD), &["B: REL=903", "B: MSC=10", "B: LED=1f"]));
@@ -515,7 +518,7 @@ pub fn main(args: &[String]) -> i32 {
   names_pool.push("*".to_string());
   names_pool.push("a?b".to_string());
   let fixed_pats = ["*", "", "?", "**", "*keyboard", "*Keyboard*", "AT*", "*Mouse*", "?ogitech*", "totalmapper", "total*", "*mapper", "cros_ec", "cros_ec*",
-                    "[Ll]ogitech*", "Logitech USB Keyboard", "logitech usb keyboard", "*é", "*ü*", "Клав*", "*\u{212A}*", "* *", "*  *", "????????????", "*\\**", "a?b", "AT Translated Set 2 keyboard?", "*Set ? keyboard"];
+                    "[Ll]ogitech*", "Logitech USB Keyboard", "logitech usb keyboard", "*é", "*ü*", "Клав*", "*\u{212A}*", "* *", "*  *", "????????????", "*\\**", "a?b", "AT Translated Set 2 keyboard?", "*Set ? keyboard", "Apple, Inc*", "*Co., Ltd*", "*,*", "Apple, Inc Apple Keyboard"];
   let mut n_excl_cases = 0u64;
   for _ in 0..n_excl {
     let nn = 1 + rng.below(6);
